@@ -1,4 +1,3 @@
 SPECIFICATION TraceSpec
-INVARIANT JudgeLine
 POSTCONDITION Verdict
 CHECK_DEADLOCK FALSE
